@@ -383,7 +383,39 @@ def run(chk, binary):
     dist["motion_model_vs_vim_differ"] = mv_diff
     if mv_diff:
         chk.violation("correspondence:the reference model of the motions differs from Vim", {"cases": mv_diff, "examples": chk.cov.get("model_vs_vim_examples")}, concrete=False)
-    chk.cov["traces_validated_against_impl"] = len(cases) + len(mcases)
+    # ---- j and k with counts, also over characters that take two cells: Vim = model = vicut ----
+    JK_ALPHA = ["a", "b", " ", "日", "本", "é", "\n", "\n", "🙂", "."]
+    jcases = []
+    for _ in range(12000 if thorough else 1500):
+        raw = "".join(rng.choice(JK_ALPHA) for _ in range(rng.randint(1, 14)))
+        flat = "\n".join(VR.text_to_lines(raw))
+        n = rng.choice([1, 1, 1, 2, 3])
+        down = rng.random() < 0.5
+        jcases.append({"text": flat + "\n", "flat": flat, "cursor": rng.choice(cursors(flat)), "keys": [(str(n) if n > 1 else "") + ("j" if down else "k")], "n": n, "down": down})
+    jvim = VR.run_vim(jcases)
+    jans = server_map(binary, [{"op": "keys", "text": c["text"], "cursor": c["cursor"], "keys": c["keys"], "last_only": True} for c in jcases])
+    jmodel = run_coq_eval("c02_jk", ["Base.Prelude", "Model.Motions", "Model.Ops", "Model.Obs"], "vert_obs", [(txt(c["flat"]), c["down"], Nat(c["n"]), Nat(c["cursor"])) for c in jcases], shard=800)
+    jk_mv = 0
+    for c, v, a, m in zip(jcases, jvim, jans, jmodel):
+        dist["vertical_motion_cases"] = dist.get("vertical_motion_cases", 0) + 1
+        chk.count(("c02-jk", c["text"], c["cursor"], tuple(c["keys"])), nontrivial=True)
+        mp = VR.index_to_pos(c["flat"], m)
+        st = (a.get("steps") or [{}])[-1]
+        case = {"text": c["text"], "cursor": c["cursor"], "keys": c["keys"], "model_cursor": mp}
+        if "buf" not in st:
+            chk.violation("spec:vicut panicked on a motion", dict(case, answer=str(st)[:200]))
+            continue
+        ip = VR.index_to_pos(st["buf"], st["cursor"])
+        if st["buf"] != c["text"] or ip != mp:
+            chk.violation("correspondence:motion differs from the reference model", dict(case, impl_cursor=ip, impl_text=st["buf"]))
+        if v is not None and not v["err"] and VR.index_to_pos("\n".join(v["lines"]), v["cursor"]) != mp:
+            jk_mv += 1
+            if jk_mv <= 5:
+                chk.cov.setdefault("model_vs_vim_examples", []).append(dict(case, vim_cursor=VR.index_to_pos("\n".join(v["lines"]), v["cursor"])))
+    dist["vertical_motion_model_vs_vim_differ"] = jk_mv
+    if jk_mv:
+        chk.violation("correspondence:the reference model of the motions differs from Vim", {"cases": jk_mv, "examples": chk.cov.get("model_vs_vim_examples")}, concrete=False)
+    chk.cov["traces_validated_against_impl"] = len(cases) + len(mcases) + len(jcases)
     chk.cov["input_distribution"] = dist
     chk.cov["exhaustive_family_cases"] = nA0
     chk.cov["recorded_deviating_cases"] = sum(len(v) for f in known_cases.values() for v in f.values())
